@@ -142,3 +142,89 @@ V("C06-notnull", "C06", ["C06.R7"], [(NULLS, "    return set(numpy.flatnonzero(v
 V("C06-negated-null", "C06", ["C06.R7"], [(NULLS, "        return set(numpy.flatnonzero(numpy.isnan(values)))", "        return set(numpy.flatnonzero(~numpy.isnan(values)))")])
 V("C06-all-instead-of-any", "C06", ["C06.R7"], [(NULLS, "numpy.flatnonzero(numpy.any(numpy.isnan(values), axis=1))", "numpy.flatnonzero(numpy.all(numpy.isnan(values), axis=1))")])
 V("C06-isna-equiv", "C06", [], [(NULLS, "    return set(numpy.flatnonzero(values.isnull().values))", "    nulls = values.isna()\n    return set(numpy.flatnonzero(nulls.values))")])
+
+# ----------------------------------------------------------------------------------------- C01
+V("C01-revert-signrun", "C01", ["C01.R3"], [(PARSER, """                symbol[: m.start(0)]
+                + ("-" if len(m.group(0).replace("+", "")) % 2 else "+")
+                + symbol[m.end(0) :]""", """                symbol[: m.start(0)] + "-"
+                if len(m.group(0).replace("+", "")) % 2
+                else "+" + symbol[m.end(0) :]""")], "origin: revert 0e5e1b9")
+V("C01-signrun-parity-plus", "C01", ["C01.R3"], [(PARSER, '("-" if len(m.group(0).replace("+", "")) % 2 else "+")', '("-" if len(m.group(0).replace("-", "")) % 2 else "+")')],
+  "parity of '+' count instead of '-' count")
+V("C01-signrun-inverted", "C01", ["C01.R3"], [(PARSER, '("-" if len(m.group(0).replace("+", "")) % 2 else "+")', '("+" if len(m.group(0).replace("+", "")) % 2 else "-")')])
+V("C01-signrun-count-equiv", "C01", [], [(PARSER, '("-" if len(m.group(0).replace("+", "")) % 2 else "+")', '("-" if m.group(0).count("-") % 2 == 1 else "+")')])
+V("C01-signrun-pattern", "C01", ["C01.R3"], [(PARSER, 'm = re.search(r"[+\\-]{2,}", symbol)', 'm = re.search(r"[+\\-]{3,}", symbol)')])
+V("C01-revert-power-multiterm", "C01", ["C01.R2"], [(PARSER, "exponent = parse_exponent(next(iter(power))) if len(power) == 1 else None", "exponent = parse_exponent(next(iter(power))) if power else None")],
+  "origin: revert of the single-term part of the `**` fix (a**(1+2) read as a**1)")
+V("C01-colon-precedence", "C01", ["C01.R1"], [(PARSER, """                ":",
+                arity=2,
+                precedence=300,""", """                ":",
+                arity=2,
+                precedence=150,""")])
+V("C01-renumber-equiv", "C01", [], [(PARSER, "precedence=-100,\n                associativity=None,\n                to_terms=lambda lhs, rhs: Structured(lhs=lhs, rhs=rhs),", "precedence=-1000,\n                associativity=None,\n                to_terms=lambda lhs, rhs: Structured(lhs=lhs, rhs=rhs),"),
+                                      (PARSER, "precedence=-100,\n                associativity=None,\n                fixity=\"prefix\",", "precedence=-1000,\n                associativity=None,\n                fixity=\"prefix\","),
+                                      (PARSER, "precedence=-100,\n                associativity=None,\n                to_terms=multistage_formula,", "precedence=-1000,\n                associativity=None,\n                to_terms=multistage_formula,")],
+  "order-preserving renumbering of the `~` precedence")
+V("C01-minus-swapped", "C01", ["C01.R2"], [(PARSER, "to_terms=lambda left, right: left - right,", "to_terms=lambda left, right: right - left,")])
+V("C01-plus-swapped", "C01", ["C01.R2"], [(PARSER, "to_terms=lambda lhs, rhs: lhs | rhs,", "to_terms=lambda lhs, rhs: rhs | lhs,")], "first-appearance order lost")
+V("C01-unary-minus-identity", "C01", ["C01.R2"], [(PARSER, "to_terms=lambda terms: OrderedSet(),", "to_terms=lambda terms: terms,")])
+V("C01-in-not-inverted", "C01", ["C01.R2"], [(PARSER, """                to_terms=lambda nested, parents: nested_product_expansion(
+                    parents, nested
+                ),""", """                to_terms=lambda nested, parents: nested_product_expansion(
+                    nested, parents
+                ),""")])
+V("C01-star-no-main-effects", "C01", ["C01.R2"], [(PARSER, """                to_terms=lambda *term_sets: (
+                    OrderedSet(itertools.chain(*term_sets))
+                    | OrderedSet(""", """                to_terms=lambda *term_sets: (
+                    OrderedSet()
+                    | OrderedSet(""")])
+V("C01-nested-no-parents", "C01", ["C01.R2"], [(PARSER, "OrderedSet, parents | OrderedSet(common * term for term in nested)", "OrderedSet, OrderedSet(common * term for term in nested)")])
+V("C01-tilde-swapped", "C01", ["C01.R2"], [(PARSER, "to_terms=lambda lhs, rhs: Structured(lhs=lhs, rhs=rhs),", "to_terms=lambda lhs, rhs: Structured(lhs=rhs, rhs=lhs),")])
+V("C01-lambda-rename-equiv", "C01", [], [(PARSER, "to_terms=lambda left, right: left - right,", "to_terms=lambda a, b: a - b,")])
+V("C01-plus-right-assoc", "C01", ["C01.R1"], [(PARSER, """                "-",
+                arity=2,
+                precedence=100,
+                associativity="left",""", """                "-",
+                arity=2,
+                precedence=100,
+                associativity="right",""")], "a - b - c would parse as a - (b - c)")
+V("C01-hat-not-alias", "C01", ["C01.R1"], [(PARSER, '"^", arity=2, precedence=500, associativity="right", to_terms=power', '"^", arity=2, precedence=400, associativity="right", to_terms=power')])
+V("C01-colon-structural", "C01", ["C01.R1"], [(PARSER, """                to_terms=lambda *term_sets: OrderedSet(
+                    functools.reduce(lambda x, y: x * y, term)
+                    for term in itertools.product(*term_sets)
+                ),
+            ),""", """                to_terms=lambda *term_sets: OrderedSet(
+                    functools.reduce(lambda x, y: x * y, term)
+                    for term in itertools.product(*term_sets)
+                ),
+                structural=True,
+            ),""")])
+V("C01-zero-any-kind", "C01", ["C01.R4"], [(PARSER, 'tokens, "0", [token_minus, token_one], kind=Token.Kind.VALUE', 'tokens, "0", [token_minus, token_one], kind=Token.Kind.NAME')])
+V("C01-zero-plus-one", "C01", ["C01.R4"], [(PARSER, 'tokens, "0", [token_minus, token_one], kind=Token.Kind.VALUE', 'tokens, "0", [token_plus, token_one], kind=Token.Kind.VALUE')])
+V("C01-bar-lhs-intercept", "C01", ["C01.R4"], [(PARSER, "                    tokens[rhs_index:],\n                    r\"\\|\",", "                    tokens,\n                    r\"\\|\",")], "intercepts inserted after | on the left-hand side too")
+V("C01-intercept-noint", "C01", ["C01.R4"], [(PARSER, "[token_one] if self.include_intercept else [],", "[token_one],")], "intercept inserted after ~ even with include_intercept=False")
+V("C01-nojoin-dropped", "C01", ["C01.R4"], [(PARSER, """                r"\\|",
+                    [token_one],
+                    kind=Token.Kind.OPERATOR,
+                    join_operator="+",
+                    no_join_for_operators={"+", "-"},""", """                r"\\|",
+                    [token_one],
+                    kind=Token.Kind.OPERATOR,
+                    join_operator="+",
+                    no_join_for_operators={"+"},""")])
+V("C01-term-key-unsorted", "C01", ["C01.R5"], [("formulaic/parser/types/term.py", "tuple(factor.expr for factor in sorted(self.factors))", "tuple(factor.expr for factor in self.factors)")])
+V("C01-term-no-dedupe", "C01", ["C01.R5"], [("formulaic/parser/types/term.py", "self.factors = tuple(dict.fromkeys(factors))", "self.factors = tuple(factors)")])
+V("C01-term-hash-origin", "C01", ["C01.R5"], [("formulaic/parser/types/term.py", 'self._hash = hash(":".join(self._factor_key))', 'self._hash = hash((":".join(self._factor_key), self.origin))')])
+V("C01-degree-reverse", "C01", ["C01.R6"], [(FORMULA, "orderer = lambda terms: sorted(terms, key=lambda term: term.degree)", "orderer = lambda terms: sorted(terms, key=lambda term: term.degree, reverse=True)")])
+V("C01-degree-secondary-key", "C01", ["C01.R6"], [(FORMULA, "orderer = lambda terms: sorted(terms, key=lambda term: term.degree)", "orderer = lambda terms: sorted(terms, key=lambda term: (term.degree, str(term)))")])
+V("C01-degree-counts-literals", "C01", ["C01.R6"], [("formulaic/parser/types/term.py", "tuple(f for f in self.factors if f.eval_method != f.eval_method.LITERAL)", "tuple(f for f in self.factors)")])
+V("C01-insert-no-reorder", "C01", ["C01.R6"], [(FORMULA, "        self.__terms.insert(index, value)\n        self._reorder()", "        self.__terms.insert(index, value)")])
+V("C01-list-root-parser", "C01", ["C01.R7"], [(FORMULA, "nested_parser.get_terms(value, context=context)  # type: ignore[attr-defined]", "parser.get_terms(value, context=context)  # type: ignore[attr-defined]")],
+  "term strings in list specs would each get an intercept")
+V("C01-spec-tuple-dropped", "C01", ["C01.R7"], [(FORMULA, "        if isinstance(spec, tuple):\n            return StructuredFormula(\n                spec,", "        if isinstance(spec, frozenset):\n            return StructuredFormula(\n                spec,")])
+V("C01-orderedset-set", "C01", ["C01.R8"], [("formulaic/parser/types/ordered_set.py", "self.values = dict.fromkeys(values)", "self.values = set(values)")])
+V("C01-pop-ge", "C01", ["C01.R9"], [(T2A, "                            operator_stack[-1].operator.precedence > operator.precedence\n", "                            operator_stack[-1].operator.precedence >= operator.precedence\n")],
+  "right-associative operators would be popped as if left-associative")
+V("C01-pop-and-or", "C01", ["C01.R9"], [(T2A, "                            == operator.precedence\n                            and operator.associativity is Operator.Associativity.LEFT", "                            == operator.precedence\n                            or operator.associativity is Operator.Associativity.LEFT")])
+V("C01-pop-flip-equiv", "C01", [], [(T2A, "                            operator_stack[-1].operator.precedence > operator.precedence\n", "                            operator.precedence < operator_stack[-1].operator.precedence\n")])
+V("C01-pop-no-bracket-test", "C01", ["C01.R9"], [(T2A, "                        and operator_stack[-1].token.kind is not Token.Kind.CONTEXT\n                        and (", "                        and (")])
